@@ -1076,7 +1076,188 @@ fn gen_variant(rng: &mut Rng, cx: &GenCx) -> String {
     text
 }
 
+// ------------------------------------------------------------------ chain scenarios
+//
+// Structured histories (a quarter of all histories) in which the effect of a change has to travel
+// over a chain of units:  D (defines what is missing) <- U (reads it through `use lib.all`, through a
+// still missing `lib.pkg`, through a package that gets / loses its body, through a still missing
+// architecture) <- W (another file, uses what U declares) <- X.  The file of D is filled, emptied and
+// restored.  And the duplicate scenario: a file with three units is copied to a second file of the
+// library (all three parked as duplicates), then the original is emptied: all parked units have to be
+// re-admitted.
+
+fn scenario_steps(
+    rng: &mut Rng,
+    file: &str,
+    present: &str,
+    alt: Option<String>,
+    initially_present: bool,
+    max_steps: usize,
+) -> Vec<Step> {
+    let mut steps = Vec::new();
+    let mut is_present = initially_present;
+    let n = std::cmp::max(1, std::cmp::min(max_steps, 2 + rng.below(4)));
+    let mut first = true;
+    while steps.len() < n {
+        if is_present {
+            if !first && alt.is_some() && rng.chance(1, 4) {
+                steps.push(Step { file: file.into(), text: alt.clone().unwrap(), kind: "replace".into() });
+            } else {
+                steps.push(Step { file: file.into(), text: String::new(), kind: "empty".into() });
+                is_present = false;
+            }
+        } else {
+            steps.push(Step {
+                file: file.into(),
+                text: present.into(),
+                kind: if first { "replace".into() } else { "restore".into() },
+            });
+            is_present = true;
+        }
+        first = false;
+    }
+    steps
+}
+
+fn gen_scenario(rng: &mut Rng, id: String, max_steps: usize) -> History {
+    let mut libraries: BTreeMap<String, Vec<String>> = BTreeMap::new();
+    let mut initial: BTreeMap<String, String> = BTreeMap::new();
+    let lints = rng.chance(9, 10);
+    let steps: Vec<Step>;
+    // W and X: users of what U declares, in other files (W sometimes in another library)
+    let w_other_lib = rng.chance(1, 3);
+    let w_prefix = if w_other_lib { "library lib_a;\nuse lib_a.u0.all;\n" } else { "use work.u0.all;\n" };
+    let x_text = |wlib: &str| -> String {
+        format!(
+            "library {wlib};\nentity x0 is\nend entity;\narchitecture a of x0 is\n  signal s : integer := {wlib}.w0.cw;\nbegin\nend architecture;\n"
+        )
+    };
+    match rng.below(8) {
+        0 | 1 | 2 => {
+            // D = lib_b.pkg1; U sees it through `use lib_b.all` / `use lib_b.pkg1.all` / a selected name
+            let d = "package pkg1 is\n  subtype t1 is integer range 0 to 7;\n  constant k : t1 := 3;\nend package;\n";
+            let d_alt = "package pkg1 is\n  subtype t1 is integer range 0 to 15;\n  constant k : t1 := 9;\n  constant k3 : t1 := 1;\nend package;\n";
+            let (u, w_expr) = match rng.below(5) {
+                0 => ("library lib_b;\nuse lib_b.all;\npackage u0 is\n  subtype t is pkg1.t1;\n  constant cu : t := pkg1.k;\nend package;\n", "cu + 1"),
+                1 => ("library lib_b;\nuse lib_b.all;\npackage u0 is\n  alias k2 is pkg1.k;\nend package;\n", "k2 + 1"),
+                2 => ("library lib_b;\nuse lib_b.pkg1.all;\npackage u0 is\n  constant cu : t1 := k;\nend package;\n", "cu + 1"),
+                3 => ("library lib_b;\npackage u0 is\n  constant cu : lib_b.pkg1.t1 := lib_b.pkg1.k;\nend package;\n", "cu + 1"),
+                _ => ("library lib_b;\nuse lib_b.all;\npackage u0 is\n  function fu(x : pkg1.t1) return integer;\nend package;\npackage body u0 is\n  function fu(x : pkg1.t1) return integer is\n  begin\n    return x + pkg1.k;\n  end function;\nend package body;\n", "fu(1)"),
+            };
+            let w = format!("{w_prefix}package w0 is\n  constant cw : integer := {w_expr};\nend package;\n");
+            let wlib = if w_other_lib { "lib_c" } else { "lib_a" };
+            libraries.insert("lib_b".into(), vec!["d.vhd".into(), "q.vhd".into()]);
+            initial.insert("q.vhd".into(), "package q9 is\n  constant c9 : integer := 9;\nend package;\n".into());
+            let mut a_files = vec!["u.vhd".to_string()];
+            initial.insert("u.vhd".into(), u.into());
+            if w_other_lib {
+                libraries.insert("lib_c".into(), vec!["w.vhd".into(), "x.vhd".into()]);
+            } else {
+                a_files.push("w.vhd".into());
+                a_files.push("x.vhd".into());
+            }
+            libraries.insert("lib_a".into(), a_files);
+            initial.insert("w.vhd".into(), w);
+            initial.insert("x.vhd".into(), if rng.chance(2, 3) { x_text(wlib) } else { String::new() });
+            let present0 = rng.chance(1, 3);
+            initial.insert("d.vhd".into(), if present0 { d.into() } else { String::new() });
+            steps = scenario_steps(rng, "d.vhd", d, Some(d_alt.into()), present0, max_steps);
+        }
+        3 | 4 => {
+            // package-body sensitivity: pk <- u0 <- w0 <- x0, the body of pk comes and goes
+            let p = "package pk is\n  constant c : integer;\n  function f(x : integer) return integer;\nend package;\n";
+            let b = "package body pk is\n  constant c : integer := 5;\n  function f(x : integer) return integer is\n  begin\n    return x + c;\n  end function;\nend package body;\n";
+            let b_alt = "package body pk is\n  constant c : integer := 6;\n  function f(x : integer) return integer is\n  begin\n    return x;\n  end function;\nend package body;\n";
+            let u = "use work.pk.all;\npackage u0 is\n  constant cu : integer := f(c);\nend package;\n";
+            let w = format!("{w_prefix}package w0 is\n  constant cw : integer := cu + 1;\nend package;\n");
+            let wlib = if w_other_lib { "lib_c" } else { "lib_a" };
+            let mut a_files: Vec<String> = vec!["p.vhd".into(), "b.vhd".into(), "u.vhd".into()];
+            if w_other_lib {
+                libraries.insert("lib_c".into(), vec!["w.vhd".into(), "x.vhd".into()]);
+            } else {
+                a_files.push("w.vhd".into());
+                a_files.push("x.vhd".into());
+            }
+            libraries.insert("lib_a".into(), a_files);
+            libraries.insert("lib_b".into(), vec!["q.vhd".into()]);
+            initial.insert("q.vhd".into(), "package q9 is\n  constant c9 : integer := 9;\nend package;\n".into());
+            initial.insert("p.vhd".into(), p.into());
+            initial.insert("u.vhd".into(), u.into());
+            initial.insert("w.vhd".into(), w);
+            initial.insert("x.vhd".into(), x_text(wlib));
+            let present0 = rng.chance(1, 2);
+            initial.insert("b.vhd".into(), if present0 { b.into() } else { String::new() });
+            steps = scenario_steps(rng, "b.vhd", b, Some(b_alt.into()), present0, max_steps);
+        }
+        5 | 6 => {
+            // a still missing secondary (or primary) unit named in an instantiation:
+            // e1(rtl) <- architecture str of top0 <- configuration cfg0 <- x0
+            let e = "entity e1 is\n  port (a : in bit; q : out bit);\nend entity;\n";
+            let a = "architecture rtl of e1 is\nbegin\n  q <= a;\nend architecture;\n";
+            let a_alt = "architecture rtl of e1 is\n  signal m : bit;\nbegin\n  m <= a;\n  q <= m;\nend architecture;\n";
+            let top = "entity top0 is\nend entity;\narchitecture str of top0 is\n  signal s, t : bit;\nbegin\n  u1 : entity work.e1(rtl) port map (a => s, q => t);\nend architecture;\n";
+            let cfg = "configuration cfg0 of top0 is\n  for str\n  end for;\nend configuration;\n";
+            let x = "entity x0 is\nend entity;\narchitecture a of x0 is\nbegin\n  u2 : configuration work.cfg0;\nend architecture;\n";
+            libraries.insert(
+                "lib_a".into(),
+                vec!["e.vhd".into(), "a.vhd".into(), "top.vhd".into(), "cfg.vhd".into(), "x.vhd".into()],
+            );
+            libraries.insert("lib_b".into(), vec!["q.vhd".into()]);
+            initial.insert("q.vhd".into(), "package q9 is\n  constant c9 : integer := 9;\nend package;\n".into());
+            initial.insert("top.vhd".into(), top.into());
+            initial.insert("cfg.vhd".into(), cfg.into());
+            initial.insert("x.vhd".into(), x.into());
+            let present0 = rng.chance(1, 3);
+            if rng.chance(2, 3) {
+                // the architecture is what comes and goes
+                initial.insert("e.vhd".into(), e.into());
+                initial.insert("a.vhd".into(), if present0 { a.into() } else { String::new() });
+                steps = scenario_steps(rng, "a.vhd", a, Some(a_alt.into()), present0, max_steps);
+            } else {
+                // the entity is what comes and goes (the architecture stays)
+                initial.insert("a.vhd".into(), a.into());
+                initial.insert("e.vhd".into(), if present0 { e.into() } else { String::new() });
+                steps = scenario_steps(rng, "e.vhd", e, None, present0, max_steps);
+            }
+        }
+        _ => {
+            // three units of one file parked as duplicates of another file's units, then re-admitted
+            let t = "package da is\n  constant ca : integer := 1;\nend package;\n\nuse work.da.all;\npackage db is\n  constant cb : integer := ca + 1;\nend package;\n\nentity dc is\n  port (a : in bit; q : out bit);\nend entity;\n";
+            let t4 = format!("{t}\narchitecture rtl of dc is\nbegin\n  q <= a;\nend architecture;\n");
+            let t = if rng.chance(1, 2) { t.to_string() } else { t4 };
+            let z = "use work.da.all;\nuse work.db.all;\npackage z0 is\n  constant cz : integer := ca + cb;\nend package;\n\nentity z1 is\nend entity;\narchitecture a of z1 is\n  signal s, t : bit;\nbegin\n  u1 : entity work.dc port map (a => s, q => t);\nend architecture;\n";
+            libraries.insert("lib_a".into(), vec!["x.vhd".into(), "y.vhd".into(), "z.vhd".into()]);
+            libraries.insert("lib_b".into(), vec!["q.vhd".into()]);
+            initial.insert("q.vhd".into(), "package q9 is\n  constant c9 : integer := 9;\nend package;\n".into());
+            initial.insert("z.vhd".into(), z.into());
+            initial.insert("x.vhd".into(), t.clone());
+            let mut st: Vec<Step> = Vec::new();
+            let both = rng.chance(1, 3);
+            if both {
+                // the copy exists from the start: which file wins is arrival order, emptying either must work
+                initial.insert("y.vhd".into(), t.clone());
+            } else {
+                initial.insert("y.vhd".into(), if rng.chance(1, 2) { String::new() } else { "package yy is\nend package;\n".into() });
+                st.push(Step { file: "y.vhd".into(), text: t.clone(), kind: "replace".into() });
+            }
+            let (first, second) = if rng.chance(2, 3) { ("x.vhd", "y.vhd") } else { ("y.vhd", "x.vhd") };
+            st.push(Step { file: first.into(), text: String::new(), kind: "empty".into() });
+            st.push(Step { file: first.into(), text: t.clone(), kind: "restore".into() });
+            st.push(Step { file: second.into(), text: String::new(), kind: "empty".into() });
+            st.push(Step { file: second.into(), text: t.clone(), kind: "restore".into() });
+            st.push(Step { file: first.into(), text: String::new(), kind: "empty".into() });
+            st.truncate(std::cmp::max(2, std::cmp::min(max_steps, 2 + rng.below(5))));
+            steps = st;
+        }
+    }
+    History { id, libraries, initial, lints, steps }
+}
+
+
 fn gen_history(rng: &mut Rng, id: String, max_steps: usize) -> History {
+    if rng.chance(1, 4) {
+        return gen_scenario(rng, id, max_steps);
+    }
     let mut libs: Vec<String> = vec!["lib_a".into(), "lib_b".into()];
     if rng.chance(1, 4) {
         libs.push("lib_c".into());
